@@ -119,7 +119,7 @@ class C09:
     id = "C09"
     level = "exploration"
     variants = ("fast", "asan")
-    rule = ("all sequences of length <= 3 (quick: from the initial state, <= 2 from three parsed states; thorough: <= 3, <= 4 from the initial state) over an alphabet of %d concrete calls (typed setters at "
+    rule = ("all sequences of length <= 3 (quick: from the initial state, <= 2 from three parsed states; thorough: <= 3, and <= 4 from the initial state over the first 64 calls) over an alphabet of %d concrete calls (typed setters at "
             "indices 0/1/size/beyond on scalars, lists, CFG_SIMPLE_* options, nested and missing options and wrong types; setlist/addlist with 0-3 "
             "values; setmulti; addtsec new/existing; rmnsec/rmtsec/rmsec present/missing; two texts parsed mid-history) from the initial state and three "
             "parsed states, plus Hypothesis sequences up to length 30. Oracle: abstract store model; after every call the "
@@ -220,7 +220,9 @@ class C09:
             if r.tier == "thorough" and start == "init":
                 depth = 4
             for d in range(1, depth + 1):
-                for seq in itertools.product(range(len(OPS)), repeat=d):
+                # depth 4 (thorough, from the initial state) over the first 64 calls of the alphabet only: 17 million sequences
+                alpha = range(len(OPS)) if d <= 3 else range(64)
+                for seq in itertools.product(alpha, repeat=d):
                     subs.append([start, list(seq)])
         B = 150
         r.run_cases([{"subs": subs[i:i + B]} for i in range(0, len(subs), B)], chunksize=2)
